@@ -19,7 +19,10 @@ from tsv.props import common
 
 DIAG = (EOFError, TypeError, AssertionError)
 BUILTIN = ['verbatim', 'lstlisting', 'Verbatim', 'listing', 'verbatimtab']
-USER = ['myverb', 'code*', 'minted', 'usr']
+USER = ['myverb', 'code*', 'minted', 'usr',
+        # user-chosen names that also have a meaning for the parser
+        # (none of them is used by the enclosing contexts below)
+        'align*', 'gather', 'itemize', 'displaymath', 'math']
 ALPHA = ['a', ' ', '\n', '{', '}', '$', '\\begin{x}', '\\end{y}', '[', ']',
          '\\ghost', '\\ghost{z}', '%c\n', '\\', '$$', '\\[', '\\(', '\\item',
          '\\end', '\\end{', '\\begin{N}', '\\begin{itemize}', '\\\\', '\\%', '&',
@@ -138,7 +141,7 @@ class C11(Prop):
         if len(node) != 1 or list(node[0].children) or len(node[0].contents) > 1:
             return [fail('verbatim-body', 'the environment node exposes parsed children')]
         for g in ('ghost', 'x', 'y', 'itemize', 'item', 'textbf'):
-            if soup.find_all(g):
+            if g != name and soup.find_all(g):
                 return [fail('verbatim-searchable', 'find_all(%r) finds a node inside the body of %s'
                              % (g, short(repr(src), 120)))]
         if len(soup.find_all('keep')) != src.count('\\keep'):
